@@ -274,12 +274,10 @@ class MultiNestedTensor(_MultiTensor):
         col_index: int,
         fill_value: int | float | Tensor,
     ) -> None:
+        # NOTE: `torch.arange(col_index, num_rows * num_cols, num_cols)`
+        # raises for a container without rows when `col_index > 0`.
         start_idx = torch.arange(
-            col_index,
-            self.num_rows * self.num_cols,
-            self.num_cols,
-            device=self.device,
-        )
+            self.num_rows, device=self.device) * self.num_cols + col_index
         diff = self.offset[start_idx + 1] - self.offset[start_idx]
         batch, arange = _batched_arange(diff)
         # Compute values
